@@ -387,7 +387,7 @@ func racePass(c *core.Ctx) {
 	failures := 0
 	// baselines (written by check.sh): every operation once, sequentially, in a process with GOMAXPROCS=1
 	baseFile := map[string]string{}
-	for _, mode := range []string{"mixed", "qr", "rs", "same", "qrall"} {
+	for _, mode := range []string{"mixed", "qr", "rs", "same", "qrall", "color"} {
 		f := fmt.Sprintf("%s/racebase.%s.json", os.Getenv("VERIF_RACEBASE"), mode)
 		if st, err := os.Stat(f); err != nil || st.Size() < 3 {
 			c.R.NotDone("S4: no GOMAXPROCS=1 baseline for mode %s", mode)
@@ -397,7 +397,7 @@ func racePass(c *core.Ctx) {
 	}
 	for _, g := range gcounts {
 		for _, p := range procs {
-			for _, mode := range []string{"mixed", "qr", "rs", "same", "qrall"} {
+			for _, mode := range []string{"mixed", "qr", "rs", "same", "qrall", "color"} {
 				if mode == "same" && g > 8 {
 					continue // "same" runs every operation in g goroutines at once (g x ~75 goroutines)
 				}
@@ -522,6 +522,14 @@ func c16Body(c *core.Ctx) {
 		{cl("tof", "123456", 1), cl("tof", "9876", 1)},
 		{cl("qr", "12a45", 1, 1), cl("qr", "12345", 1, 1)},
 		{cl("qr", "AB1", 0, 2), cl("qr", "HELLO WORLD", 0, 0)},
+		// the same symbol size under different colour schemes (and plain): each call keeps its own colours
+		{cl("qr@6", "HELLO WORLD", 0, 0), cl("qr@7", "HELLO", 0, 0)},
+		{cl("qr", "12345", 1, 1), cl("qr@6", "54321", 1, 1)},
+		{cl("dm@6", "A1"), cl("dm@8", "B2")},
+		{cl("az@6", "Hello", 33, 0), cl("az@8", "World", 33, 0)},
+		{cl("pdf@6", "abc", 1), cl("pdf", "abd", 1)},
+		{cl("c128@6", "Ab1", 1), cl("c128@8", "Ab2", 1)},
+		{cl("ean@6", "1234567"), cl("ean", "7654321")},
 	}
 	for _, pr := range sib {
 		exploreUnit(c, []string{"S2", pr[0], pr[1]}, b2, false)
@@ -564,7 +572,7 @@ func c16Body(c *core.Ctx) {
 	c.R.Bound("S2", fmt.Sprintf("all unordered pairs (thorough: triples) of %v from cold package state, group-level policy, preemption bound %d", s2, b2))
 	c.R.Bound("S3", "every schedule (iterative bounding continued until no alternative is cut; pruning on an exact global state key: per-thread operation/value histories + channel and lock states): iterateModules on 9x9, 13x13 and the version-1 function-pattern matrix; encodeAlphaNumeric on all words <= 3 over {A,Z,:,a,é}; splitToBlocks(IterateBytes) for v1-L, v3-Q, v5-Q; eight whole qr.Encode calls (Numeric, AlphaNumeric, Unicode, Auto, two error-returning, two that fill version 1-L to within 3 bits of capacity; quick tier: Numeric, Auto and the 41-digit capacity call with all non-preemptive schedules, preemption bound 0, plus the two error-returning calls with every schedule; the 25-character alphanumeric capacity call is left to S3e, which runs an alphanumeric capacity call of every version)")
 	c.R.Bound("S3e", "one whole qr.Encode per version 1..40 under the scheduler: default schedule and three probe schedules each (no branching)")
-	c.R.Bound("S4", "free-running -race pass: {mixed, qr, rs} x goroutines {2,8,64}, {same: every operation of the alphabet in 2 or 8 goroutines at once} and {qrall: one symbol of each version 1..40} x GOMAXPROCS {1,2,4,16} (QR modes also 3,5,6,7), each in a fresh process; observations are also compared with a GOMAXPROCS=1 baseline process (detector, not enumeration)")
+	c.R.Bound("S4", "free-running -race pass: {mixed, qr, rs} x goroutines {2,8,64}, {same: every operation of the alphabet in 2 or 8 goroutines at once}, {color: ten families x plain and three colour schemes on contents of equal symbol size} and {qrall: one symbol of each version 1..40} x GOMAXPROCS {1,2,4,16} (QR modes also 3,5,6,7), each in a fresh process; observations are also compared with a GOMAXPROCS=1 baseline process (detector, not enumeration)")
 	c.R.Sample(map[string]any{"harness": "S1 0 2 3", "meaning": "two threads call Encode(_,2) and Encode(_,3) on one fresh encoder; all interleavings of the statements of reedsolomon.go with <= bound preemptions; oracle: both results == reference remainder, cache == reference generators"})
 	c.R.Sample(map[string]any{"harness": "S3b 0 A:a", "meaning": "every schedule of the alphanumeric producer/consumer pipeline on an input with an invalid third character; oracle: same result as alone, no goroutine left parked"})
 	_ = time.Now
@@ -599,6 +607,17 @@ func RaceOps(mode string) []RaceOp {
 		for _, d := range []int{30, 7, 13, 22, 2, 28, 17, 10} {
 			d := d
 			out = append(out, RaceOp{fmt.Sprintf("rs.Encode(%d)", d), func() string { return fmt.Sprint(enc.Encode(rsData("count", f, d), d)) }})
+		}
+	case "color":
+		// every family through its WithColor entry point under three schemes and plain, contents that give
+		// the same symbol size: a call must come back in its own colours whatever the others asked for
+		for fi, fam := range []string{"qr", "dm", "az", "pdf", "c128", "ean", "c39", "c93", "codabar", "tof"} {
+			content := [][2]string{{"HELLO WORLD", "COLOUR ME"}, {"A1B2", "C3D4"}, {"Hello", "World"}, {"abc", "abd"}, {"Ab1", "Ab2"}, {"1234567", "7654321"}, {"CODE 39", "CODE 93"}, {"CODE 39", "CODE 93"}, {"A12B", "C34D"}, {"1234", "5678"}}[fi]
+			p := [][]int{{0, 0}, nil, {33, 0}, {1}, {1}, nil, {1, 0}, {1, 0}, nil, {1}}[fi]
+			for k, f := range []string{fam, fam + "@6", fam + "@7", fam + "@8"} {
+				cl := call{f, []byte(content[k%2]), p}
+				out = append(out, RaceOp{cl.pretty(), func() string { o, _ := cl.observeSafe(); return o }})
+			}
 		}
 	case "qrall":
 		// one symbol of every version 1..40 (version-dependent loops, remainder bits, block groups)
